@@ -343,7 +343,13 @@ func runC17(t *simrt.Tape, o Opts) Outcome {
 			}
 		}
 		var got []string
-		for r, c := range have {
+		var haveKeys []string
+		for r := range have {
+			haveKeys = append(haveKeys, r)
+		}
+		sort.Strings(haveKeys)
+		for _, r := range haveKeys {
+			c := have[r]
 			if c != 1 {
 				violate("duplicate-entry", "%s: %d entries for region %s", desc, c, r)
 				return
